@@ -39,6 +39,7 @@ pub struct Report {
 }
 
 pub const MAX_SAMPLES: usize = 6;
+pub const MAX_HASHES_PER_WORKER: usize = 1_500_000;
 pub const MAX_VIOLATIONS_PER_WORKER: usize = 40;
 
 impl Report {
@@ -64,8 +65,15 @@ impl Report {
             s.insert(v.to_string());
         }
     }
+    /// Record the hash of a distinct-candidate non-trivial case. Capped per worker so that huge
+    /// enumerations stay cheap: beyond the cap cases are only counted in `nontrivial_unhashed`,
+    /// which makes distinct_nontrivial a measured lower bound.
     pub fn nontrivial(&mut self, hash: u64) {
-        self.nontrivial_hashes.push(hash);
+        if self.nontrivial_hashes.len() < MAX_HASHES_PER_WORKER {
+            self.nontrivial_hashes.push(hash);
+        } else {
+            self.add("nontrivial_unhashed", 1);
+        }
     }
     pub fn want_sample(&self) -> bool {
         self.samples.len() < MAX_SAMPLES
